@@ -18,6 +18,20 @@ relative), the `safe` flag of the sources and a list of *arrangements* of the sa
   nested_each  main file = n documents `key: !include fi`
   nested_list  main file = `key: [!include [f1..fn], 5]`
   nested_unsafe main file = `key: !unsafe {in: !include [f1..fn]}`
+  spread       main file = `!include [d1/inc1, .., dn/incn]` (or n documents `!include di/inci`), the includer di/inci = `!include <name i>`
+  nested_spread main file = `key: !include [d1/inc1, .., dn/incn]`, includers as in `spread`
+
+The two `spread` arrangements have a physical layout of their own (`spread_layout`): every file has its own includer, the
+includers live in directories chosen per file (`sdirs`, relative to the main directory; two includers may share one, one may
+be the working directory), and the placement of a file (next to the including file / working directory only / both with a
+decoy / nowhere) is relative to ITS includer.  Most includers (`shared`) write one and the same relative name (`sname`:
+plain, with a sub-directory, `./`, `../`, `sub/../`), so that within ONE build the same name as written denotes a
+different file for different including files: a file of that name next to each includer, next to one and in the working
+directory for another, present for one and missing for another.  A file keeps the shared name only when the lookup rule leads
+from its includer to its own content; otherwise it goes by its own name (so the documents of the case stay the same).  The
+oracle checks the name every document was found under against the rule (per including file), the outcome for missing
+names, agreement with the other arrangements up to file-relative path values, `key: !include` = content under key, and the
+locations denoted by file-relative path probes.
 
 Every arrangement is materialised in a fresh temporary directory (the process changes into the chosen
 working directory and back), built with `Builder`, and compared with the pure-file-system model
@@ -41,11 +55,12 @@ VBASE = os.path.realpath(tempfile.gettempdir())
 VROOT = posixpath.join(VBASE, 'AYC06ROOT')          # virtual root: same depth as the real temp roots
 
 EQUAL_ARRS = ['sources', 'rawsep', 'inclist', 'inceach', 'chain']      # must agree exactly (tree and data)
-MASKED_ARRS = ['multidoc', 'mixed']                                     # agree up to file-relative path values
-NESTED_ARRS = ['nested', 'nested_each', 'nested_list', 'nested_unsafe']
+MASKED_ARRS = ['multidoc', 'mixed', 'spread']                           # agree up to file-relative path values
+NESTED_ARRS = ['nested', 'nested_each', 'nested_list', 'nested_unsafe', 'nested_spread']
+SPREAD_ARRS = ['spread', 'nested_spread']                               # own physical layout: one includer per file, each in its own directory
 ALL_ARRS = EQUAL_ARRS + MASKED_ARRS + NESTED_ARRS
 NEEDS_ALL_FILES = ['sources', 'rawsep', 'multidoc']                     # no include involved: nothing can be "missing"
-NO_EMPTY_GROUP = ['inceach', 'nested_each', 'chain', 'mixed']            # an include contributing no document: assert in Builder.preprocess
+NO_EMPTY_GROUP = ['inceach', 'nested_each', 'chain', 'mixed', 'spread', 'nested_spread']   # an include contributing no document: assert in Builder.preprocess
 
 # ------------------------------------------------------------------------------------------------
 # planning: case x arrangement x root  ->  files, cwd, sources, expectations
@@ -66,6 +81,68 @@ def wrap_keys(raw, keys):
 
 def arg_of(path_abs, cwd_abs, absolute):
     return path_abs if absolute else posixpath.relpath(path_abs, cwd_abs)
+
+def under(root, path):
+    return path == root or path.startswith(root.rstrip('/') + '/')
+
+def spread_params(case):
+    n = len(case['groups'])
+    sdirs = list(case.get('sdirs') or [])[:n]
+    sdirs += ['s%d' % j for j in range(len(sdirs), n)]
+    shared = list(case.get('shared') or [])[:n]
+    shared += [False] * (n - len(shared))
+    return sdirs, shared, case.get('sname') or 'c.yaml'
+
+def spread_layout(case, root, maindir, cwd, main_arg):
+    """The `spread` layout: file j is included by its own includer  <maindir>/<sdirs[j]>/inc<j>.yaml = `!include <written j>`
+    and lives where its `place` says RELATIVE TO THAT INCLUDER (next to it / in the working directory only / both with a
+    decoy in the working directory / nowhere).  `written j` is the name shared by the whole case (`sname`) when
+    shared[j], else the file's own name: so the same relative name is written in several files of different directories
+    and denotes a different file for each of them.  A shared name is given up for a file (which then goes by its own
+    name) when the lookup rule - next to the including file first, then the working directory - would not lead from its
+    includer to its own content: two files at one location, a `missing` or `cwd` file shadowed by another one's copy,
+    a location outside the root."""
+    docs, groups, names, place = case['docs'], case['groups'], case['names'], case['place']
+    n = len(groups)
+    sdirs, shared, sname = spread_params(case)
+    inc_names = [jn(sdirs[j], 'inc%d.yaml' % j) for j in range(n)]            # as written in the main file
+    inc_abs = [jn(maindir, inc_names[j]) for j in range(n)]
+    inc_arg = [jn(posixpath.dirname(main_arg), inc_names[j]) for j in range(n)]    # name under which the includer is reached
+    while True:
+        written = [sname if shared[j] else names[j] for j in range(n)]
+        files = {inc_abs[j]: [inc_raw([written[j]])] for j in range(n)}
+        phys, bad = [], None
+        for j in range(n):
+            loc_inc, loc_cwd = jn(posixpath.dirname(inc_abs[j]), written[j]), jn(cwd, written[j])
+            target = loc_inc if place[j] in ('inc', 'both') else loc_cwd if place[j] == 'cwd' else None
+            if not under(root, loc_inc) or not under(root, loc_cwd) or (target is not None and target in files):
+                bad = j
+                break
+            if target is not None:
+                files[target] = [docs[i] for i in groups[j]]
+            phys.append(target)
+        if bad is None:
+            for j in range(n):
+                loc_cwd = jn(cwd, written[j])
+                if place[j] == 'both' and loc_cwd not in files:
+                    files[loc_cwd] = [M({'DECOY': S(j)})]
+            found = []
+            for j in range(n):
+                f = None
+                for d in [posixpath.dirname(inc_arg[j]), cwd]:
+                    cand = jn(d, written[j])
+                    if jn(cwd, cand) in files:
+                        f = cand
+                        break
+                found.append(f)
+                if (None if f is None else jn(cwd, f)) != phys[j]:
+                    bad = j
+                    break
+        if bad is None:
+            return dict(files=files, phys=phys, found=found, written=written, inc_names=inc_names, shared=shared)
+        if not shared[bad]:
+            raise AssertionError(f'spread layout: file {bad} is not reachable under its own name {names[bad]!r}')
+        shared[bad] = False
 
 def plan(case, arr, root):
     """returns dict(files={abs path: [raw docs]}, cwd, sources=[...], found=[str|None per group],
@@ -155,6 +232,23 @@ def plan(case, arr, root):
                     main.append(inc_raw([nm]))
                     if found[j] is None and not miss:
                         miss = [nm]
+        elif arr in SPREAD_ARRS:
+            lay = spread_layout(case, root, maindir, cwd, main_arg)
+            files = lay['files']
+            out['found'] = lay['found']
+            out['written'], out['shared'] = lay['written'], lay['shared']
+            for j, g in enumerate(groups):
+                for i in g:
+                    out['docfile'][i] = lay['phys'][j]
+                    out['docsrc'][i] = lay['found'][j]
+            if arr == 'nested_spread':
+                main = [wrap_keys(inc_raw(lay['inc_names']), key)]
+                out['key'] = key
+            elif case.get('seach'):
+                main = [inc_raw([nm]) for nm in lay['inc_names']]
+            else:
+                main = [inc_raw(lay['inc_names'])]
+            miss = [lay['written'][j] for j in range(len(groups)) if lay['phys'][j] is None][:1]
         elif arr == 'chain':
             middir = jn(maindir, 'midd')
             half = (len(groups) + 1) // 2
@@ -358,6 +452,8 @@ def ancestor(path_abs, n):
 VOC = G.MERGECTL
 MAINDIRS = ['', 'm', 'm/n']
 CWDS = ['', 'w', 'm', 'm/n', 'w/v']
+SDIRS = ['', 'p', 'q', 'p/r', 'w']                      # directory of an includer of the spread layout, relative to the main directory
+SNAMES = ['c.yaml', 'c.yaml', 'sub/c.yaml', './c.yaml', '../c.yaml', 'sub/../c.yaml']      # the include name several includers share
 
 def gen_probe(rng):
     kind = rng.choice(['file', 'file', 'parent', 'parent', 'parentn', 'parentn', 'cwd', '', 'abs'])
@@ -430,6 +526,11 @@ def gen_case(rng, tier):
                 place[j] = 'missing'; nmiss += 1
     # an absolute include name cannot be expressed independently of the root; use a plain name instead
     names = [nm if nm is not None else 'sub/abs%d.yaml' % j for j, nm in enumerate(names)]
+    # the spread layout: one includer per file, each in a directory of its own choice, most of them writing the same name
+    ng = len(groups)
+    sdirs = [rng.choice(SDIRS) for _ in range(ng)]
+    shared = [rng.random() < 0.7 for _ in range(ng)]
+    sname, seach = rng.choice(SNAMES), rng.random() < 0.4
     arrs = list(ALL_ARRS)
     if tier != 'thorough' and rng.random() < 0.5:
         keep = set(rng.sample(ALL_ARRS, 5)) | {'inclist'}
@@ -439,6 +540,7 @@ def gen_case(rng, tier):
         'mainabs': rng.random() < 0.5, 'safe': rng.choice([None, None, True, False]),
         'key': rng.choice([['k'], ['k'], ['a'], ['k', 'in'], ['L']]),
         'inline': [j for j in range(len(groups)) if rng.random() < 0.5],
+        'sdirs': sdirs, 'shared': shared, 'sname': sname, 'seach': seach,
         'arrs': arrs, 'style': list(rng.choice([('flow', 0, 0), ('flow', 0, 0), ('block', 0, 0), ('flow', 1, 1)])),
     }
     case['arrs'] = [a for a in case['arrs'] if applicable(case, a)]
@@ -465,9 +567,12 @@ class C06(Prop):
     RULE = ('document sequences over the merge-control vocabulary with a list-valued key overridden by a later document and !path '
             'probes (file, parent(n), cwd, implicit, abs) x partition into (multi-document / empty) files x include names with '
             'sub-directories, ./ and ../ x placement of every file (next to the including file, cwd only, both with a decoy, '
-            'missing) x main directory, working directory, absolute/relative main name, source safe flag; every case is built in '
-            'up to 11 arrangements (separate sources, raw sources, one multi-document file, !include list, one include per '
-            'document, includes of includes, inline/included mix, nested under a key in four ways) in real temporary directories; '
+            'missing) x main directory, working directory, absolute/relative main name, source safe flag x (spread layout) one '
+            'includer per file in a directory chosen per file, ~70% of them writing one shared relative include name that '
+            'denotes a different file (or no file) for each including directory; every case is built in '
+            'up to 13 arrangements (separate sources, raw sources, one multi-document file, !include list, one include per '
+            'document, includes of includes, inline/included mix, nested under a key in four ways, one includer per file '
+            'spread over directories at top level and under a key) in real temporary directories; '
             'non-trivial = at least two documents in at least two arrangements; distinct by SHA-1')
     ASSUMPTIONS = [
         'the file system is a pure map from absolute normalised paths to document lists (no symlinks, permissions, ~ expansion, directories as files)',
@@ -493,6 +598,16 @@ class C06(Prop):
             mk_case([M({'x': S(1, kw={'prio': 1})}), M({'x': S(2)})], groups=[[0], [], [1]], place=['inc', 'cwd', 'inc'], cwd='w'),
             # parent(n) of a file reached under a name with a leading '..' (flagged only when KNOWN_FINDINGS lists the key)
             mk_case([M({'pp0': Q([S('F_a')], tag={'k': 'path', 'f': 'parent(2)'})})], maindir='m', cwd='w', arrs=['sources', 'inclist']),
+            # one include name written in two files of different directories denotes a different file for each of them
+            # (seeded S3-C06: the place where a name was found first was remembered for the whole build); minimal form first
+            mk_case([M([]), M([])], sdirs=['s0', 's1'], shared=[True, True], arrs=['spread']),
+            mk_case([M({'name': S('none'), 'depth': S(18)}), M({'name': S('cifar'), 'batch': S(32)}), M({'x': S(1)})],
+                    sdirs=['model', 'data', 'data'], shared=[True, True, False], arrs=['inclist', 'spread', 'nested_spread']),
+            #   ... next to the first includer, through the working directory for the second, nowhere for the third
+            mk_case([M({'x': S(1)}), M({'x': S(2)})], sdirs=['p', 'q'], shared=[True, True], place=['inc', 'cwd'], cwd='w',
+                    sname='sub/c.yaml', seach=True, arrs=['inclist', 'spread', 'nested_spread']),
+            mk_case([M({'x': S(1)}), M({'x': S(2)}), M({'y': S(3)})], sdirs=['p', 'p/r', ''], shared=[True, True, True],
+                    place=['both', 'inc', 'missing'], maindir='m', cwd='m/n', sname='../c.yaml', arrs=['inclist', 'spread', 'nested_spread']),
         ]
 
     def gen_cases(self, rng, n, tier):
@@ -597,15 +712,19 @@ class C06(Prop):
             if io[a]['cfg'].get('err') == 'preprocess' and io[a]['cfg'].get('missing'):
                 return f'[{a}] every included file exists but the build reports missing files {io[a]["cfg"]["missing"]}'
         # (2) lookup order: every document carries the name under which the rule finds its file
-        if 'inclist' in arrs and 'ok' in io['inclist']['stages']:
-            p = plans['inclist']
+        #     (in the spread layout: the name is looked up next to the file in which it is written, whatever the same name
+        #     denotes for another including file of the same build)
+        for a in ('inclist', 'spread'):
+            if a not in arrs or 'ok' not in io[a]['stages']:
+                continue
+            p = plans[a]
             exp = [p['found'][j] for j, g in enumerate(case['groups']) for _ in g]
-            got = [s['f']['src'] for s in io['inclist']['stages']['ok']]
+            got = [s['f']['src'] for s in io[a]['stages']['ok']]
             if got != exp:
-                return f'[inclist] documents come from {got}, the lookup rule (including file first, then cwd) gives {exp}'
-            for s in io['inclist']['stages']['ok']:
+                return f'[{a}] documents come from {got}, the lookup rule (including file first, then cwd) gives {exp}'
+            for s in io[a]['stages']['ok']:
                 if any(k == 'DECOY' for k, _ in s.get('c', [])):
-                    return '[inclist] the copy in the working directory was read although the file exists next to the including file'
+                    return f'[{a}] the copy in the working directory was read although the file exists next to the including file'
         # (3) all arrangements of the same documents build the same config
         ref_a = next((a for a in EQUAL_ARRS if a in arrs), None)
         if ref_a:
@@ -627,7 +746,7 @@ class C06(Prop):
         # (4) `key: !include fs` = the merged content of fs placed under key
         base = io.get('inclist') or (io.get(ref_a) if ref_a else None)
         if base is not None:
-            for a in ('nested', 'nested_list'):
+            for a in ('nested', 'nested_list', 'nested_spread'):
                 if a not in arrs:
                     continue
                 key = plans[a]['key']
@@ -638,7 +757,10 @@ class C06(Prop):
                     inner = val_get(got['ok'], key)
                     if inner is None:
                         return f'[{a}] nothing under {key}: {json.dumps(strip_ids(got["ok"]))[:160]}'
-                    d = first_diff(strip_ids(base['cfg']['ok']), strip_ids(inner))
+                    x, y = strip_ids(base['cfg']['ok']), strip_ids(inner)
+                    if a in SPREAD_ARRS:        # the files are elsewhere: file-relative path values are left to (5)
+                        x, y = mask_file_paths(x), mask_file_paths(y)
+                    d = first_diff(x, y)
                     if d:
                         return f'[{a}] content under {key} differs from the build of the same files alone: ' + d
                     if a == 'nested_list':
@@ -715,6 +837,18 @@ class C06(Prop):
         f.add('maindir:' + (case['maindir'] or '.')); f.add('cwd:' + (case['cwd'] or '.'))
         f.add('cwd==maindir' if case['cwd'] == case['maindir'] else 'cwd!=maindir')
         f.add('main:abs' if case['mainabs'] else 'main:rel'); f.add(f'safe:{case.get("safe")}')
+        sp = next((a for a in case['arrs'] if a in SPREAD_ARRS), None)
+        if sp:
+            try:
+                lay = plan(case, sp, VROOT)
+                k = sum(1 for x in lay['shared'] if x)
+                f.add('spread:shared-name-written-in=%s' % (k if k < 3 else '3+'))
+                if k >= 2:
+                    locs = {lay['docfile'][g[0]] for g, x in zip(case['groups'], lay['shared']) if x and g}
+                    f.add('spread:shared-name-denotes=%d-files' % len(locs))
+                    if None in locs: f.add('spread:shared-name-missing-for-one')
+            except Exception:
+                pass
         for a in case['arrs']:
             f.add('arr:' + a)
             if isinstance(io, dict) and a in io:
@@ -734,6 +868,18 @@ class C06(Prop):
         for fld, val in (('maindir', ''), ('cwd', ''), ('mainabs', False), ('safe', None), ('key', ['k']), ('style', ['flow', 0, 0])):
             if case.get(fld) != val:
                 yield dict(case, **{fld: val})
+        if any(a in SPREAD_ARRS for a in arrs):
+            sdirs, shared, sname = spread_params(case)
+            for j in range(len(shared)):
+                if shared[j]:
+                    yield dict(case, sdirs=sdirs, sname=sname, shared=shared[:j] + [False] + shared[j + 1:])
+            for j in range(len(sdirs)):
+                if sdirs[j] != 's%d' % j:
+                    yield dict(case, sdirs=sdirs[:j] + ['s%d' % j] + sdirs[j + 1:], sname=sname, shared=shared)
+            if sname != 'c.yaml':
+                yield dict(case, sname='c.yaml')
+            if case.get('seach'):
+                yield dict(case, seach=False)
         for j, pl in enumerate(case['place']):
             if pl != 'inc':
                 c = dict(case, place=case['place'][:j] + ['inc'] + case['place'][j + 1:])
@@ -759,6 +905,9 @@ class C06(Prop):
         c = dict(case)
         for fld in ('groups', 'names', 'place'):
             c[fld] = case[fld][:j] + case[fld][j + 1:]
+        for fld in ('sdirs', 'shared'):
+            if case.get(fld) and len(case[fld]) > j:
+                c[fld] = case[fld][:j] + case[fld][j + 1:]
         c['inline'] = [x - (1 if x > j else 0) for x in case.get('inline', []) if x != j]
         c['arrs'] = [a for a in c['arrs'] if applicable(c, a)]
         return c
@@ -788,6 +937,14 @@ class C06(Prop):
             if a:
                 p = plan(case, a, '/ROOT')
                 out['main_file[' + a + ']'] = render_file(p['files'][jn('/ROOT', case['maindir'], 'main.yaml')], style)
+        except Exception:
+            pass
+        try:
+            a = next((x for x in case['arrs'] if x in SPREAD_ARRS), None)
+            if a:
+                p = plan(case, a, '/ROOT')
+                out['layout[' + a + ']'] = {f: render_file(d, style) for f, d in sorted(p['files'].items())}
+                out['layout[' + a + ']']['(lookup rule finds)'] = p['found']
         except Exception:
             pass
         return out
